@@ -148,6 +148,43 @@ def gen_source(real, rng, live, allow_illegal, forbid):
     return ("str", real.reserve(1)[0], rng.choice(NEW_TEXTS))
 
 
+def texts_after_hidden(w):
+    """text nodes whose preceding sibling is a comment, a PI or another text node (candidates for the filtered
+    add_preceding_siblings case)"""
+    out = []
+
+    def el(e):
+        i, k, dns, data, kids = e
+        out.extend(t for t, _ in data[2])
+        for c, tail in kids:
+            if tail[1] is not None and c[1][0] in ("comment", "pi"):
+                out.append(tail[0])
+            out.extend(t for t, _ in tail[2])
+            el(c)
+    for pro, root, epi in w["docs"]:
+        el(root)
+    for l in w["loose"]:
+        if l[0] == "el":
+            el(l[1])
+    return out
+
+
+def gen_targeted(real, rng, w):
+    """add_preceding_siblings(element-like) on such a text node under filters that hide its neighbour"""
+    cands = texts_after_hidden(w)
+    if not cands:
+        return None
+    live = live_nodes(w)
+    x = rng.choice(cands)
+    loose = [i for i, v in live.items() if v[1] is False and v[0] != "text"]
+    if loose and rng.random() < 0.5:
+        src = ("node", rng.choice(loose))
+    else:
+        src = ("tag", real.reserve(1)[0], "tp")
+    F = rng.choice([F_DEFAULT, F_DEFAULT, F_TAG, (True, False, True, True)])
+    return F, ("precede", x, (src,))
+
+
 def gen_op(real, rng, w, F):
     live = live_nodes(w)
     ids = sorted(live)
@@ -462,6 +499,10 @@ def run_history(ctx, rng, n_ops, hist_no, fixed=None):
         else:
             F = F_ALL if mode < 0.7 or rng.random() < 0.5 else rng.choice([F_DEFAULT, F_DEFAULT, F_TAG])
             o = gen_op(real, rng, w, F)
+            if rng.random() < 0.1:
+                tg = gen_targeted(real, rng, w)
+                if tg:
+                    F, o = tg
             if o is None:
                 continue
             why = skip_op(real, o, w, F)
